@@ -479,8 +479,8 @@ def verify_one(spec):
     return out
 
 
-CONTRACTS = {'tdvp1': (tdvp_singlesite_contract, ('C08', 'C02', 'C09')), 'dmrg1': (dmrg_singlesite_contract, ('C10', 'C02')),
-             'tdvp2': (lambda: twosite_contract('tdvp'), ('C08', 'C02', 'C09')), 'dmrg2': (lambda: twosite_contract('dmrg'), ('C10', 'C02'))}
+CONTRACTS = {'tdvp1': (tdvp_singlesite_contract, ('C08', 'C02')), 'dmrg1': (dmrg_singlesite_contract, ('C10', 'C02')),
+             'tdvp2': (lambda: twosite_contract('tdvp'), ('C08', 'C02')), 'dmrg2': (lambda: twosite_contract('dmrg'), ('C10', 'C02'))}
 
 
 def verify(prop, only=None):
